@@ -16,7 +16,8 @@ const char* scoped_file() { return __FILE__; }
 
 namespace {
 #define W_SC(LIT, STMT) case LIT: { STMT; *line = __LINE__; created(); body(); real::g_activity = ACT_RELEASE; } break;
-void with_scoped(int lit, int eid, Mk& sm, unsigned long* line, const std::function<void()>& created, const std::function<void()>& body) {
+template <class M>
+void with_scoped(int lit, int eid, M& sm, unsigned long* line, const std::function<void()>& created, const std::function<void()>& body) {
   real::g_activity = ACT_CREATE;
   switch (lit) {
     W_SC(16, REQUIRE_CALL(sm, f(_)).RETURN(wret(eid)))
@@ -43,9 +44,10 @@ namespace real {
 void scoped_note(int scslot, const Spec& s, unsigned long line);  // real.cpp: registers spec and line of a scoped slot
 void scoped_forget(int scslot);
 
-void scoped_run(int obj, const Spec* A, const Spec* B, const std::vector<ScopedCall>& calls,
-                void (*step)(void* ctx, int kind, int index, const CallResult& r), void* ctx) {
-  Mk& m = wmock(obj);
+namespace {
+template <class M>
+void scoped_run_impl(M& m, int obj, const Spec* A, const Spec* B, const std::vector<ScopedCall>& calls,
+                     void (*step)(void* ctx, int kind, int index, const CallResult& r), void* ctx) {
   unsigned long lineA = 0, lineB = 0;
   auto do_calls = [&] {
     for (size_t i = 0; i < calls.size(); ++i) {
@@ -68,6 +70,12 @@ void scoped_run(int obj, const Spec* A, const Spec* B, const std::vector<ScopedC
   step(ctx, 4, 0, CallResult{});
   scoped_forget(0);
   scoped_forget(1);
+}
+}  // namespace
+
+void scoped_run(int obj, const Spec* A, const Spec* B, const std::vector<ScopedCall>& calls,
+                void (*step)(void* ctx, int kind, int index, const CallResult& r), void* ctx) {
+  with_mock(obj, [&](auto& m) { scoped_run_impl(m, obj, A, B, calls, step, ctx); });
 }
 }  // namespace real
 }  // namespace w
